@@ -1,4 +1,5 @@
 // C01 — parallel loops. Instrumented half.
+#include <deque>
 #include <vector>
 
 #include "../rt/sim_api.h"
@@ -96,6 +97,18 @@ void do_foreach(CallCtx &cx, bool iterators)
     parallel_foreach(v, [&cx, base](Elem &e) { visit(cx, (long long)(&e - base)); });
 }
 
+// a random-access range whose elements are not contiguous in memory: elements are identified by value
+void do_foreach_deque(CallCtx &cx)
+{
+  SimTag tag(SIM_TAG_SUT);  // the range's storage is what the loop must stay inside of
+  std::deque<Elem> d;
+  for (long long i = 0; i < cx.count; i++)
+    d.push_back(Elem{(int)i});
+  if (d.empty())
+    return;
+  parallel_foreach(d.begin(), d.end(), [&cx](Elem &e) { visit(cx, (long long)e.v); });
+}
+
 template <typename I>
 void dispatch(CallCtx &cx, int api, int block)
 {
@@ -117,7 +130,9 @@ void run_call(const C01Call &c, bool inner, int api, int itype, long long count,
   cx.h = c01_call_begin(api, itype, count, block, inner);
   bool aborted = false;
   try {
-  if (api == C01_FOREACH_CONT || api == C01_FOREACH_IT) {
+  if (api == C01_FOREACH_DEQUE) {
+    do_foreach_deque(cx);
+  } else if (api == C01_FOREACH_CONT || api == C01_FOREACH_IT) {
     do_foreach(cx, api == C01_FOREACH_IT);
   } else {
     switch (itype) {
